@@ -159,7 +159,45 @@ func runPool(d runDesc) runResult {
 
 	allClosed := true
 	poolClosed := false
-	if d.DoubleClose {
+	if d.PoolClose == 3 {
+		// Pool.Close racing Gets (also Gets blocked waiting for a connection): the history
+		// cannot be replayed step by step, only the end state is compared - every
+		// connection closed, nobody crashed or hung
+		var wg sync.WaitGroup
+		for w := 0; w < d.Workers; w++ {
+			wg.Add(1)
+			wr := r.Split()
+			go func() {
+				defer wg.Done()
+				for i := 0; i < d.Ops; i++ {
+					c, err := pool.Get()
+					if err != nil {
+						continue
+					}
+					fc := c.LocalAddr().(faddr).c
+					if !atomic.CompareAndSwapInt32(&fc.owner, 0, 1) {
+						atomic.StoreInt32(&handout2, 1)
+					}
+					if wr.Chance(50) {
+						time.Sleep(time.Duration(wr.Intn(200)) * time.Microsecond)
+					}
+					if wr.Chance(d.UnusablePct) {
+						coordinator.MarkUnusable(c)
+					}
+					atomic.StoreInt32(&fc.owner, 0)
+					c.Close()
+				}
+			}()
+		}
+		time.Sleep(time.Duration(200+r.Intn(3000)) * time.Microsecond)
+		pool.Close()
+		poolClosed = true
+		wg.Wait()
+		lg.mu.Lock()
+		lg.evs = []string{"EvPoolClose"}
+		lg.n = map[string]int{"poolclose": 1}
+		lg.mu.Unlock()
+	} else if d.DoubleClose {
 		// designed witness of Props.pool_double_close_refuted on the real code
 		h1, c1, f1 := get()
 		_, c2, _ := get()
@@ -291,7 +329,7 @@ func runPool(d runDesc) runResult {
 	coq := fmt.Sprintf("CPool %d [%s] (mkPO %d %d %d %s %s %%BAD%% %s %s)", d.Cap, strings.Join(evs, "; "),
 		size, ln, live, hx.CoqBool(allClosed), hx.CoqBool(poolClosed), hx.CoqBool(handout2 != 0), hx.CoqBool(sampleBad != 0))
 	counts = append(counts, fmt.Sprintf("pool:cap=%d", d.Cap), fmt.Sprintf("pool:workers=%d", d.Workers), fmt.Sprintf("pool:close_mode=%d", d.PoolClose))
-	return runResult{Coq: coq, Nontrivial: len(evs) > 4, Sig: fmt.Sprintf("pool:%d:%d:%d", d.Seed, len(evs), f.next),
+	return runResult{Coq: coq, Nontrivial: len(evs) > 4 || (d.PoolClose == 3 && f.next > 1), Sig: fmt.Sprintf("pool:%d:%d:%d", d.Seed, len(evs), f.next),
 		Obs: map[string]interface{}{"size": size, "len": ln, "live": live, "events": len(evs), "conns_made": f.next,
 			"handout2": handout2 != 0, "sample_bad": sampleBad != 0, "underlying_double_closes": extra, "pool_closed": poolClosed},
 		Counts: counts}
